@@ -92,9 +92,12 @@ def entry_nodes(kind, path='/v/d/x'):
     return [W.l(path, 'nowhere', 1007)]
 
 
-def make_world(kind, top, alt, pre):
+HOMES = ['/h', '/h(1', '/h[x', '/h+y' + chr(92), '/h $0*']  # $HOME is data, never a pattern
+
+
+def make_world(kind, top, alt, pre, home=0):
     name = LONG if PRE[pre].startswith('long-name') else (TINAME if PRE[pre].startswith('dot-trashinfo-name') else 'x')
-    nodes = [W.d('/h'), W.d('/v/d'), W.d('/v/d/sub'), W.f('/v/d/sub/keep', 'K', 0o644, 900),
+    nodes = [W.d('/h'), W.d(HOMES[home]), W.d('/v/d'), W.d('/v/d/sub'), W.f('/v/d/sub/keep', 'K', 0o644, 900),
              W.l('/v/lp', '/v/d', 901), W.f('/v/n/inner', 'INNER', 0o644, 902), W.d('/v/n/nd'),
              W.f('/v/n/nd/deep', 'DEEP', 0o644, 903),
              W.f('/v/out/target.txt', 'TARGET', 0o644, 904), W.f('/v/out/tdir/t', 'T', 0o644, 905),
@@ -142,8 +145,8 @@ def make_world(kind, top, alt, pre):
     return W.W(mounts=['/', '/v', '/v/n'], cwd='/v/d', nodes=nodes)
 
 
-def scenario(kind, sp, mode, td, fb, top, alt, pre, verbose):
-    world = make_world(kind, top, alt, pre)
+def scenario(kind, sp, mode, td, fb, top, alt, pre, verbose, home=0):
+    world = make_world(kind, top, alt, pre, home)
     arg, target, family = SPELLINGS[sp]
     if (PRE[pre].startswith('long-name') or PRE[pre].startswith('dot-trashinfo-name')) and family == 'entry':
         nm = LONG if PRE[pre].startswith('long-name') else TINAME
@@ -159,7 +162,7 @@ def scenario(kind, sp, mode, td, fb, top, alt, pre, verbose):
         args.append('--home-fallback')
     args += ['-v'] * verbose
     args += ['--', arg]
-    e = scen.env({'TRASH_ENABLE_HOME_FALLBACK': envv} if envv else None)
+    e = scen.env({'TRASH_ENABLE_HOME_FALLBACK': envv} if envv else None, home=HOMES[home])
     steps = [{'snap': '/'}, C('put', args, e, stdin=stdin, cwd='/v/d'), {'snap': '/'}]
     return world, steps, arg, target, family
 
@@ -236,12 +239,12 @@ def oracle(results, arg, target, family, label):
                        arg, res['exit'], res['exc'], sorted(removed)[:6], sorted(added)[:8], res['err'][-300:]))
 
 
-def _case(kind, sp, mode, td, fb, top, alt, pre, verbose):
+def _case(kind, sp, mode, td, fb, top, alt, pre, verbose, home=0):
     with rt.untraced():
-        world, steps, arg, target, family = scenario(kind, sp, mode, td, fb, top, alt, pre, verbose)
-        rt.begin((KINDS[kind], arg, MODES[mode], TRASHDIR_OPT[td], FALLBACK[fb], TOP_STATES[top], ALT_STATES[alt], PRE[pre], verbose))
+        world, steps, arg, target, family = scenario(kind, sp, mode, td, fb, top, alt, pre, verbose, home)
+        rt.begin((KINDS[kind], arg, MODES[mode], TRASHDIR_OPT[td], FALLBACK[fb], TOP_STATES[top], ALT_STATES[alt], PRE[pre], verbose, HOMES[home]))
         m, results = scen.run_model(world, steps)
-        label = '%s:%s' % (KINDS[kind], arg if len(arg) < 30 else arg[:6] + '..(%d bytes)' % len(arg))
+        label = '%s:%s' % (KINDS[kind], arg if len(arg) < 30 else arg[:6] + '..(%d bytes)' % len(arg)) + (':HOME=%s' % HOMES[home] if home else '')
         return oracle(results, arg, target, family, label)
 
 
@@ -261,6 +264,15 @@ def w_dirs(kind: int, top: int, alt: int, pre: int, sp: int) -> str:
     post: _ == ''
     """
     return _case(rt.sel(kind, 6), rt.of([0, 4, 6], sp), 0, 0, 0, rt.sel(top, 6), rt.sel(alt, 3), rt.sel(pre, 9), 0)
+
+
+def w_home(kind: int, hv: int, td: int, fb: int, verbose: int) -> str:
+    """
+    pre: PARTITION is None or kind == PARTITION
+    pre: 0 <= kind < 6 and 1 <= hv <= 4 and 0 <= td < 3 and 0 <= fb < 4 and 0 <= verbose < 2
+    post: _ == ''
+    """
+    return _case(rt.sel(kind, 6), 0, 0, rt.sel(td, 3), rt.sel(fb, 4), 5, 0, 0, rt.sel(verbose, 2), rt.sel(hv, 5))
 
 
 def w_opts(kind: int, td: int, fb: int, alt: int, verbose: int, sp: int) -> str:
@@ -313,6 +325,8 @@ def obligations(tier):
         CH('W_options', MOD, 'w_opts', timeout=900, partitions=list(range(6)), engine='W', regime='selector',
            encodes=PUT_FUNCS, stubs=STUBS, bounds='6 kinds x 3 --trash-dir x 4 fallback x 3 .Trash-uid x 3 -v x 3 spellings'),
     ]
+    obs.append(CH('W_home_directory_names', MOD, 'w_home', timeout=600, partitions=list(range(6)), engine='W', regime='selector', encodes=PUT_FUNCS, stubs=STUBS,
+                  bounds='6 kinds x 4 $HOME values containing ( [ + backslash space $ * x 3 --trash-dir x 4 fallback switches x -v or not'))
     if tier == 'thorough':
         obs.append(CH('W_spelling_mode_trashdir_fallback', MOD, 'w_full_opts', timeout=3000, partitions=list(range(6)), twin=False, engine='W',
                       regime='selector', encodes=PUT_FUNCS, stubs=STUBS,
